@@ -8,7 +8,7 @@ From Coq Require Import List ZArith Bool.
 Import ListNotations.
 From JR Require Import Keepalive Keepalive_Proofs.
 From JRGen Require Extracted.
-From JR Require Skeletons.
+From JR Require Skeletons Options Options_Proofs.
 Open Scope Z_scope.
 
 (* the read deadline is re-armed in exactly three places, all triggered by the peer (a frame was read, a ping/pong
@@ -50,6 +50,34 @@ Example c17_ex : fired (krun 100 {| now := 0; deadline := 100; fired := false |}
               /\ fired (krun 100 {| now := 0; deadline := 100; fired := false |} [Tick 21; Reset; Tick 60; Tick 41]) = true.
 Proof. split; reflexivity. Qed.
 
+(* ---- configuration (Options.v): what is configured is what is used. A client's keepalive parameters are the defaults with
+   the options applied in the order listed; the options being plain setters (c17_source_facts), for EVERY option list the
+   timeout is the argument of the last WithTimeout (else the default) and the ping interval that of the last
+   WithPingInterval: the order of the two does not matter and no value is adjusted. *)
+Theorem c17_configured_is_used : forall os,
+  Options.configure false os =
+    {| Options.ping := Options.last_ping os (Options.ping Options.kdefault);
+       Options.timeout := Options.last_timeout os (Options.timeout Options.kdefault) |}.
+Proof. exact Options_Proofs.configured_is_used. Qed.
+
+Theorem c17_option_order_irrelevant : forall p t,
+  Options.configure false [Options.OPing p; Options.OTimeout t] = Options.configure false [Options.OTimeout t; Options.OPing p] /\
+  Options.configure false [Options.OPing p; Options.OTimeout t] = {| Options.ping := p; Options.timeout := t |}.
+Proof. exact Options_Proofs.option_order_irrelevant. Qed.
+
+(* the model's defaults are the code's *)
+Theorem c17_defaults :
+  (Options.ping Options.kdefault, Options.timeout Options.kdefault) = Extracted.default_client_ping_timeout.
+Proof. reflexivity. Qed.
+
+(* a WithTimeout that adjusts its argument by the ping interval current at that moment (seeded change C17-d): a pair
+   satisfying the documented constraint gets another timeout, and which one depends on the order of the options *)
+Theorem c17_refuted_clamping_option :
+  let p := 50000000 in let t := 300000000 in
+  2 * p < t /\ Options.timeout (Options.configure true [Options.OTimeout t; Options.OPing p]) = 11000000000 /\
+  Options.timeout (Options.configure true [Options.OPing p; Options.OTimeout t]) = 1100000000.
+Proof. exact Options_Proofs.clamp_refuted. Qed.
+
 (* the functions this property's model is an abstraction of still have the control / locking / shared-state skeleton the
    model was written against (Skeletons.v, by hand; Extracted.v, regenerated from /repo) *)
 Theorem c17_code_skeletons :
@@ -59,6 +87,10 @@ Theorem c17_code_skeletons :
 Proof. repeat split; reflexivity. Qed.
 
 Print Assumptions c17_code_skeletons.
+Print Assumptions c17_configured_is_used.
+Print Assumptions c17_option_order_irrelevant.
+Print Assumptions c17_defaults.
+Print Assumptions c17_refuted_clamping_option.
 Print Assumptions c17_source_facts.
 Print Assumptions c17_healthy_never_expires.
 Print Assumptions c17_silent_detected.
